@@ -1515,10 +1515,12 @@ class GitTreeTransform(DiskTreeTransform):
             except BaseException:
                 mover.rollback()
                 raise
-            else:
-                mover.apply_deletions()
         self._tree._apply_index_changes(index_changes)
         self._done = True
+        # Discard the replaced content only now that the index describes the
+        # new layout: if a deletion fails, the metadata must not be left
+        # describing the old one (the caller's finalize() saves it).
+        mover.apply_deletions()
         self.finalize()
         return _TransformResults(modified_paths, self.rename_count)
 
